@@ -52,7 +52,7 @@ LEVEL_NOTE = ("Numbers are abstract in Props/C13.lean: exact law on the represen
               "angles=400 and angles=360; the format at every number-printing site of the writer is regenerated "
               "(Gen/GkfFmtSites.lean) and compared with the instantiated ones (C13_number_sites_formats). Trusted: Lean kernel, statements in Props/C13*.lean, tools/gen/c13_attrs.py, "
               "tools/gen/c13_doc.py, harness, generators; hand models: Model/ExportRemoved.lean (abs-term stage / export / re-run, tied "
-              "by four regenerated call-site constants), Loader / Describes of Props/C13Rerun.lean (not modelled).")
+              "by four regenerated call-site constants), the concrete loader Rerun.docLoader with its conversions Conv and SameShape of Props/C13Rerun.lean (hand definitions; Describes is a theorem since round 13).")
 TECHNIQUE = "Lean 4 proof (case analysis over record types, induction over lists) + translators for the parser tables and the writer sites + correspondence + end-to-end oracle"
 TRUSTED = ["tools/gen/c13_attrs.py (regex translator: attribute name -> local variable -> toDouble target -> setter/ctor argument "
            "for every GKFparser::process_*)",
@@ -69,7 +69,7 @@ MODELLED = ["number formatting/parsing (to_xmlstr, setprecision, updated_xml_cov
             "PointData order (std::map) : the model keeps insertion order; <cov-mat> inside <obs>/<height-differences> replacing the "
             "stdev attributes: the model keeps the attribute (equal for consistent documents)",
             "between parse and export: the loop of refine_adjustment, project_equations and the solver are the models of C06 / C05 / "
-            "C01 (Props/C13Rerun.lean, exact codec); Acord2 and how the parsed document becomes PD / OD (Loader), "
+            "C01 (Props/C13Rerun.lean, exact codec); Acord2; how the parsed document becomes PD / OD is the hand definition Rerun.docLoader (round 13, not regenerated), "
             "refine_approx_coordinates inside the loop (parameter ra) and the whole chain under the real printer: explored "
             "end-to-end only",
             "text layout of the exported file, expat, str2xml escaping (C12)"]
